@@ -506,4 +506,17 @@ def create (order : List BlockName) (b : Builder) (st : Stamps) (round : Nat →
   let (bat, _) := serializeBat b.order (outs.map (·.desc)) header.length
   header ++ (bat ++ (outs.map (·.bytes)).flatten)
 
+/-! ## The output target
+
+`create` opens a path with `open_or_pass(path, "wb")`: whatever the path held before is discarded, then
+header, table and blocks are written one after the other from position 0. -/
+
+/-- `open(path, "wb")` on a path that holds `previous`: the file is truncated to nothing -/
+def openWb (_previous : Bytes) : Bytes := []
+
+/-- what a path that held `previous` holds after `SqwBuilder.create` -/
+def pathAfterCreate (previous : Bytes) (order : List BlockName) (b : Builder) (st : Stamps)
+    (round : Nat → Nat) (chunk : Nat) : Bytes :=
+  openWb previous ++ create order b st round chunk
+
 end ScnVerif.Sqw
